@@ -328,10 +328,21 @@ def main(argv):
             errs = [l for l in lake_out.splitlines() if re.search(r"error", l)]
             broken.append(("lake-build", "\n".join(errs[:30])))
         thms, axres, bad = ([], {}, [])
+        for mod in [m for m in cfg["modules"] if ".Props." in m]:
+            f = os.path.join(LEAN, *mod.split(".")) + ".lean"
+            if os.path.exists(f):
+                thms += [(mod, n) for n in theorem_names(f)]
         if ok_l:
             thms, axres, bad = axiom_audit(pid, [m for m in cfg["modules"] if ".Props." in m], log)
             for n, why in bad:
                 broken.append(("axiom-audit:" + n, why))
+        if ok_l and tier == "thorough":
+            # independent re-check of the compiled theorem modules
+            for mod in [m for m in cfg["modules"] if ".Props." in m]:
+                rc, out = sh(["lake", "env", "leanchecker", mod], cwd=LEAN, timeout=3000)
+                log.append(("leanchecker " + mod, rc, out[-300:]))
+                if rc != 0:
+                    broken.append(("leanchecker:" + mod, out[-1500:]))
         forb = forbidden_tokens()
         for h in forb:
             broken.append(("forbidden-token", h))
